@@ -334,6 +334,9 @@ def run(prog, tier):
     obs.append(_hmc_fresh(prog))
     # the momentum refresh samples exp(-K): its covariance is the inverse of the kinetic energy's metric, per mass class
     obs.extend(momentum_obligations(prog, "momentum-samples-kinetic"))
+    from .common import call_order_obligations
+    obs.extend(call_order_obligations(prog, "arguments-in-order", ["inference/mcmc/gibbs.py", "inference/mcmc/pca.py", "inference/mcmc/ensemble.py",
+                                                                   "inference/mcmc/parallel.py", "inference/mcmc/base.py"]))
 
     meta = {
         "explanation": "At each accept test (located by its uniform draw) the def-use expansion of the test's other side is "
